@@ -884,6 +884,60 @@ def handlers_format_lazily(chk):
         chk.ok(rule, "<failure chain>", "%d handlers that bind the caught exception: none formats it eagerly" % n)
 
 
+def future_accepts_failure(chk, found):
+    """O1.14: asyncio.Future.set_exception refuses a StopIteration (TypeError raised inside the caller -- a loop callback, where
+    it is only logged).  A failure caught around a SYNCHRONOUS payload call can be one (inside a coroutine Python turns it into
+    RuntimeError first, PEP 479): where such a failure is handed to set_exception it must be tested for / wrapped before"""
+    prog = chk.program
+    rule = "O1.14"
+    n = 0
+    ok = True
+    for cls in util.concrete_runners(prog):
+        facts = common.runner_facts(prog, cls)
+        sync_monitors = []
+        for mname in facts["monitors"]:
+            m = prog.lookup_method(cls, mname)
+            if m is not None and not m.is_async:
+                # only a monitor that catches what the payload raises hands failures on
+                if any(isinstance(h, ast.ExceptHandler) and h.name for h in ast.walk(m.node)):
+                    sync_monitors.append(m)
+        if not sync_monitors:
+            continue
+        for fis in cls.methods.values():
+            for fi in fis:
+                for c in ast.walk(fi.node):
+                    if not (isinstance(c, ast.Call) and isinstance(c.func, ast.Attribute) and c.func.attr == "set_exception" and c.args and isinstance(c.args[0], ast.Name)):
+                        continue
+                    n += 1
+                    chk.count()
+                    arg = c.args[0].id
+                    par = util.parents_map(fi.node)
+                    guarded = False
+                    # (a) an explicit test of the failure for StopIteration before the call
+                    for t in ast.walk(fi.node):
+                        if isinstance(t, (ast.If, ast.IfExp)) and "StopIteration" in util.unparse(t.test) and arg in util.unparse(t.test) and getattr(t, "lineno", 0) <= c.lineno:
+                            guarded = True
+                    # (b) the call sits in a try that handles the TypeError by reporting a substitute
+                    up = par.get(id(c))
+                    while up is not None and not guarded:
+                        if isinstance(up, ast.Try) and any(h.type is None or any(x in util.unparse(h.type) for x in ("TypeError", "Exception", "BaseException")) for h in up.handlers) and any(isinstance(x, ast.Attribute) and x.attr == "set_exception" for h in up.handlers for x in ast.walk(h)):
+                            guarded = True
+                        up = par.get(id(up))
+                    if not guarded:
+                        chk.bad(
+                            rule,
+                            fi.qual,
+                            "%s hands a failure caught around a synchronous payload call (%s) to Future.set_exception without testing it for StopIteration: the Future refuses it with TypeError inside the loop callback, the failure is only logged by the loop and the runtime keeps running although a payload raised"
+                            % (fi.name, ", ".join(m.name for m in sync_monitors)),
+                            node=c,
+                            stmt="set_exception unguarded in %s" % fi.name,
+                            input="payload raises StopIteration()",
+                        )
+                        ok = False
+    if ok:
+        chk.ok(rule, "<runners>", "%d set_exception sites behind synchronous monitors test the failure for StopIteration first" % n)
+
+
 def run(chk):
     chk.facts.update({k: v for k, v in libfacts.cross_read().items() if "trio" in k or "asyncio" in k})
     found = chk.guard("O1.1", "<runners>", monitors_and_outcomes, chk) or {}
@@ -910,3 +964,4 @@ def run(chk):
     chk.guard("O1.13", "<failure chain>", handlers_format_lazily, chk)
     # the service sweep is itself a payload: when an adopt step fails the sweep must end by raising (shared with C03)
     chk.guard("O3.7", c03.SERVICE_RUNNER, c03.sweep_rules, chk)
+    chk.guard("O1.14", "<runners>", future_accepts_failure, chk, found)
